@@ -248,6 +248,39 @@ func runC12(c *Ctx) {
 			c.Nontrivial(1)
 		}
 	})
+	// two-level families: each first letter x carries a set S_x of second letters taken from a menu of sets that agree
+	// on their first letters and differ late; minimal automaton = one node per distinct S_x (hash / prefix-keyed
+	// registers are exercised by equal sets separated by a near-equal one)
+	for _, L := range []int{3, 5, 6, 9, 17, 40} {
+		letters := make([]byte, L)
+		for i := range letters {
+			letters[i] = byte('a' + i)
+			if L > 26 {
+				letters[i] = byte(40 + i)
+			}
+		}
+		menu := [][]byte{letters, letters[:L-1], letters[1:], append(append([]byte{}, letters[:L-2]...), letters[L-1])}
+		firsts := []byte{'1', '2', '3', '4'}
+		for code := 0; code < 256; code++ {
+			var ws []string
+			x := code
+			for _, f := range firsts {
+				for _, l := range menu[x%4] {
+					ws = append(ws, string([]byte{f, l}))
+				}
+				x /= 4
+			}
+			sort.Strings(ws)
+			dc := dawgCase{Words: ws, Alpha: string(firsts) + string(letters[:2]) + string(letters[L-2:]), ProbeLen: 2}
+			wide = append(wide, dc)
+		}
+	}
+	c.parFor(int64(len(wide)), 4, func(lo, hi int64) {
+		for _, dc := range wide[lo:hi] {
+			dc := dc
+			c.Check(func() *Failure { return evalDawgSet(dc) })
+		}
+	})
 	c.SetCount("wide_node_word_sets", int64(len(wide)))
 	// builder histories
 	u2 := wordsUpTo([]byte("ab"), 2)
